@@ -185,6 +185,7 @@ class Data:
             <Context object mapping 2 objects to 2 properties [47e29724] at 0x...>
         """
         objects, properties = map(tuple, (objects, properties))
+        bools = list(bools)
 
         for items, name in [(objects, 'objects'), (properties, 'properties')]:
             if not items:
